@@ -22,7 +22,7 @@ pub const INFO: PropInfo = PropInfo {
         "requests whose routing outcome is ambiguous under C01's two readings are not judged here",
         "when the innermost participant on a 404 is a FangAction (which cannot see the request on the way out) only the outbound trace is compared",
     ],
-    expected_probes: &["c04.handler_with_local_fangs", "c04.miss_inside_mount", "c04.miss_outside_mounts", "c04.stopped", "c04.three_apps_on_chain", "c04.yielding_fang_ran", "c04.single_child_mount", "c04.fang_only_mounted_app", "c04.request_under_a_mount_prefix_with_fang_only_app", "c04.another_application_lived_earlier"],
+    expected_probes: &["c04.handler_with_local_fangs", "c04.miss_inside_mount", "c04.miss_outside_mounts", "c04.stopped", "c04.three_apps_on_chain", "c04.yielding_fang_ran", "c04.single_child_mount", "c04.fang_only_mounted_app", "c04.request_under_a_mount_prefix_with_fang_only_app", "c04.another_application_lived_earlier", "c04.another_thread_builds_applications_meanwhile"],
 };
 
 #[derive(Clone, Debug, Serialize, Deserialize)]
@@ -41,6 +41,10 @@ pub struct Scenario {
     /// Whatever routing remembers across requests must not outlive the application it belongs to.
     #[serde(default)]
     pub previous: bool,
+    /// a second OS thread builds other applications WHILE this one is built (one Ohkami per executor thread, parallel
+    /// tests): the two threads interleave at every access to the shared application-id counter (hook K6)
+    #[serde(default)]
+    pub parallel_builder: bool,
 }
 
 fn shifted(app: &AppSpec, by: u32) -> AppSpec {
@@ -91,7 +95,7 @@ pub fn generate(_cfg: &RunCfg, _out: &mut Outcome) -> Scenario {
                 .collect()
         })
         .collect();
-    Scenario { app, conns, previous: t::chance(1, 4) }
+    Scenario { app, conns, previous: t::chance(1, 4), parallel_builder: t::chance(1, 4) }
 }
 
 pub fn run(cfg: &RunCfg, direct: Option<&serde_json::Value>) -> Outcome {
@@ -194,7 +198,44 @@ fn execute(sc: &Scenario, out: &mut Outcome) {
             let _ = simcore::run();
         }
     }
+    if sc.parallel_builder {
+        out.probe("c04.another_thread_builds_applications_meanwhile");
+        // the second thread: simcore's hand-off thread (the one that otherwise runs the Ctrl-C closure), parked at every
+        // instrumented access; it builds and drops three copies of the application with other ids
+        let other = shifted(&sc.app, 2000);
+        simcore::signal::reset();
+        let _ = simcore::signal::set_handler(Box::new(move || {
+            for _ in 0..3 {
+                let a = std::panic::catch_unwind(std::panic::AssertUnwindSafe(|| appgen::build(&other)));
+                drop(a);
+            }
+        }));
+        simcore::signal::deliver();
+        crate::rt::SCHED_CB.with(|c| {
+            *c.borrow_mut() = Some(Box::new(|name: &'static str| {
+                if name.starts_with("atomic:") {
+                    // this thread is about to touch the counter: how far does the other one get first?
+                    for _ in 0..t::weighted(&[3, 3, 2, 1, 1]) {
+                        if !simcore::signal::can_step() {
+                            break;
+                        }
+                        let _ = simcore::signal::step();
+                        simcore::with(|w| w.count("fault.other_thread_stepped_at_atomic_access"));
+                    }
+                }
+            }));
+        });
+    }
     let built = std::panic::catch_unwind(std::panic::AssertUnwindSafe(|| appgen::build(&sc.app)));
+    if sc.parallel_builder {
+        crate::rt::SCHED_CB.with(|c| *c.borrow_mut() = None);
+        let mut guard = 0;
+        while simcore::signal::can_step() && guard < 10_000 {
+            let _ = simcore::signal::step();
+            guard += 1;
+        }
+        simcore::signal::clear();
+    }
     let o1 = match built {
         Ok(x) => x,
         Err(_) => {
